@@ -410,6 +410,31 @@ def m_download_window(run, cap):
     return f[:3]
 
 
+def m_window_capacity(run, cap):
+    """Across all transfers the sliding-window semaphore never has more tokens outstanding
+    (newest issued down to the lowest unreleased, per tag) than its capacity, and is never
+    granted at zero capacity."""
+    f = []
+    nxt, low, rel = {}, {}, {}
+    for r in run.trace:
+        if r['sem'] != 'in_memory_download' if 'sem' in r else True:
+            continue
+        tag = r['tag']
+        if r['ev'] == 'sem_acquire':
+            nxt[tag] = max(nxt.get(tag, 0), r['token'] + 1)
+            low.setdefault(tag, 0)
+        elif r['ev'] == 'sem_release':
+            rel.setdefault(tag, set()).add(r['token'])
+            while low.get(tag, 0) in rel[tag]:
+                low[tag] += 1
+        out = sum(nxt[t] - low.get(t, 0) for t in nxt)
+        if out > cap:
+            f.append(f'{out} in-memory download chunks outstanding across transfers {sorted(nxt)} '
+                     f'(max_in_memory_download_chunks={cap})')
+            break
+    return f
+
+
 def m_permits_restored(run):
     f = []
     m = run.manager
